@@ -240,3 +240,50 @@ def body_registry_history(n, wrong=False):
         else: M.emit('cex', what='registry_history', n=n, failed=sorted({w for w, c in viol if z3.is_true(m.eval(c, model_completion=True))})[:6],
                      coincide=[[i, j] for i in range(n) for j in range(i + 1, n) if z3.is_true(m.eval(z3.And(defs[i][0][0].len == defs[j][0][0].len, z3.BoolVal(True) if isinstance(defs[i][2].discr, int) else defs[i][2].discr == defs[j][2].discr, defs[i][2].payloads[5][0].discr == defs[j][2].payloads[5][0].discr), model_completion=True))])
     return body
+
+
+def body_registry_chain(depth):
+    """bounded black-box history with NESTED registration: Registry::new(), then one register_type of a type T0 whose conversion registers T1, whose
+    conversion registers T2, ... down to T_depth (a primitive); then From<Registry>.  Ti is a sequence of T(i+1).  Catches behaviour that depends on the
+    nesting depth of conversions (recursion guards, deferred work lists) whatever the representation is"""
+    from lib import v14ref
+    from mirsym.models import seq_elems
+    def body(M):
+        M.aux['dictmaps'] = True; M.aux['tid_sort'] = TID
+        M.max_depth = max(M.max_depth, 12 * depth + 400)
+        reg = Cell(M.run_fn(M.resolve('Registry::new'), []))
+        tids = [z3.Const('t%d' % i, TID) for i in range(depth + 1)]
+        M.add(z3.Distinct(tids))
+        log, children = [], {}
+        def mk_fn(i):
+            def f(M):
+                log.append(i); return Tok('TYPE%d' % i)
+            return f
+        def m_into_portable(M, a, c, fr):
+            i = int(a[0].name[4:])
+            if i < depth:
+                rv = M.run_fn(M.resolve('Registry::register_type'), [a[1], Ref(Cell([mk_fn(i + 1), tids[i + 1]]))])
+                children[i] = rv[0]
+                td = EnumV('TypeDef', 2, {2: [[[rv[0], None]]]})
+            else:
+                td = EnumV('TypeDef', 5, {5: [EnumV('TypeDefPrimitive', 3, {k: [] for k in range(15)})]})
+            return [[VecV(bv(0, 64), [])], VecV(bv(0, 64), []), td, VecV(bv(0, 64), [])]
+        M.models.insert(0, (re.compile(r'<ty::Type as IntoPortable>::into_portable'), m_into_portable))
+        rv = M.run_fn(M.resolve('Registry::register_type'), [Ref(reg), Ref(Cell([mk_fn(0), tids[0]]))])
+        viol = [('C01,C05,C11|the root gets id 0', rv[0] != 0)]
+        pr = M.run_fn(M.resolve('<PortableRegistry as From<Registry>>::from'), [reg.v])
+        ts = seq_elems(M, pr[0])
+        viol.append(('C01,C02,C05|one entry per type of the chain (%d entries for %d types)' % (len(ts), depth + 1), z3.BoolVal(len(ts) != depth + 1)))
+        viol.append(('C05|every definition evaluated exactly once', z3.BoolVal(sorted(log) != list(range(depth + 1)))))
+        for i, pt in enumerate(ts[:depth + 1]):
+            viol.append(('C01|entry %d carries id %d' % (i, i), pt[0] != i))
+            td = pt[1][2]
+            if i < depth:
+                ok = isinstance(td, EnumV) and td.discr == 2 and i in children
+                viol.append(('C01,C02,C11|entry %d is the sequence of the id handed out for its element type' % i, z3.BoolVal(True) if not ok else z3.Or(td.payloads[2][0][0][0] != children[i], children[i] != i + 1)))
+            else:
+                viol.append(('C01,C02|the innermost entry is the primitive', z3.BoolVal(not (isinstance(td, EnumV) and td.discr == 5))))
+        m = M.model(z3.Or([c for _, c in viol]))
+        if m is None: M.emit('ok', conjuncts=sorted({w for w, _ in viol})[:12], depth=depth)
+        else: M.emit('cex', what='registry_chain', depth=depth, failed=sorted({w for w, c in viol if z3.is_true(m.eval(c, model_completion=True))})[:6])
+    return body
